@@ -1290,6 +1290,21 @@ class AntiJoinLoDRen(_SemiAnti):
 
 
 @register
+class GroupByLoD(Contract):
+    """group_by records the keys exactly as given - same keys, same order, nothing dropped - on the receiver itself:
+    aggregate orders its result by these keys in THIS order (C16)."""
+    file, qualname, prop, variant = F, "ListOfDicts.group_by", "C16", "keys recorded in the order given"
+
+    def setup(self, cx):
+        return {"self": cx.lod("self"), "args": ["h", "g", "k1"]}
+
+    def ensures(self, cx, result):
+        cx.prove("returns-the-receiver", result is cx.inputs["self"])
+        cx.prove("group-keys = the keys given, in order", result.attrs.get("_group_keys") == ("h", "g", "k1"))
+        cx.prove("frame:items-unchanged", cx.ctx.heap["D"] == cx.old["heap"]["D"])
+
+
+@register
 class SemiAntiPartitionLoD(Contract):
     """Lemma: semi_join and anti_join select complementary predicates, hence partition the left list in order
     (same argument as the filter/filter_out partition lemma)."""
@@ -1352,3 +1367,4 @@ for _n, _why in (("rename[new=old pairs, also swaps and shifts]", "dict rebuilt 
     _bo("C17", F + "::ListOfDicts." + _n, _why + "; bounded run-time contract, every tier")
 for _n in ("full_join[every left and right item at least once, merged pairs have equal keys]", "full_join[renamed key]"):
     _bo("C17", F + "::ListOfDicts." + _n, "a join's right-hand argument is never changed (and is not marked obsolete): checked on the real code")
+_bo("C16", F + "::ListOfDicts.left_join[two keys, the second named differently]", "key tuples of arity 2 (itemgetter returns tuples): bounded run-time contract, every tier")
